@@ -4,7 +4,10 @@
 # With --save the minimised replay is copied to /verif/findings/<ID>-fixed-<commit>.json.
 # usage: selftest/fixes.sh [--save] [commit ...]
 set -u
-cd /verif
+cd "$(dirname "$0")/.."
+# under `vp run --with-repo` the job works on its private copy of the repository (VP_RUN_REPO), never on the live /repo
+REPO="${VP_RUN_REPO:-/repo}"
+if [ -n "${VP_RUN_REPO:-}" ]; then sed -i "s#path = \"/repo\"#path = \"$VP_RUN_REPO\"#" sim/Cargo.toml; fi
 SAVE=0; [ "${1:-}" = "--save" ] && { SAVE=1; shift; }
 declare -A OWNER
 while read -r c subj; do
@@ -16,15 +19,15 @@ while read -r c subj; do
     *interpreter*|*OP_*|*CHECKSIG*|*conditional*|*Interpreter*|*verify_hashbuf*) OWNER[$c]=C16 ;;
     *) OWNER[$c]="${FIX_OWNER:-}" ;;
   esac
-done < <(git -C /repo log --format='%h %s' | grep ' fix:' | sed 's/ fix:/ /')
+done < <(git -C "$REPO" log --format='%h %s' | grep ' fix:' | sed 's/ fix:/ /')
 [ $# -gt 0 ] && LIST="$*" || LIST="${!OWNER[@]}"
-if [ -n "$(git -C /repo status --porcelain)" ]; then echo "repo working tree not clean" >&2; exit 2; fi
+if [ -n "$(git -C "$REPO" status --porcelain)" ]; then echo "repo working tree not clean" >&2; exit 2; fi
 fail=0
 for c in $LIST; do
   id="${OWNER[$c]:-}"
   ids="${FIX_OWNER_OVERRIDE:-$id}"
   [ -z "$ids" ] && { echo "SKIP $c (no owner)"; continue; }
-  git -C /repo revert --no-commit "$c" >/dev/null 2>&1 || { git -C /repo revert --abort >/dev/null 2>&1; git -C /repo reset -q --hard HEAD; echo "cannot revert $c"; fail=1; continue; }
+  git -C "$REPO" revert --no-commit "$c" >/dev/null 2>&1 || { git -C "$REPO" revert --abort >/dev/null 2>&1; git -C "$REPO" reset -q --hard HEAD; echo "cannot revert $c"; fail=1; continue; }
   for id in $ids; do
     out=$(VERIF_NO_EVIDENCE=1 ./check "$id" quick 2>&1); rc=$?
     rp=$(echo "$out" | sed -n 's/^VIOLATION property=[^ ]* replay=//p' | head -1)
@@ -37,6 +40,6 @@ for c in $LIST; do
       echo "MISSED  $c $id (exit $rc)"; fail=1
     fi
   done
-  git -C /repo revert --abort >/dev/null 2>&1; git -C /repo reset -q --hard HEAD
+  git -C "$REPO" revert --abort >/dev/null 2>&1; git -C "$REPO" reset -q --hard HEAD
 done
 exit $fail
